@@ -81,6 +81,7 @@ UNIT_DRIVERS = {
     "compaction_retention": ["iter::retention_enum"],
     "pipeline_commit": ["transaction::conflict_enum"],
     "txn_commit": ["transaction::conflict_enum"],
+    "write_set": ["transaction::writeset_enum"],
     "oracle": ["transaction::conflict_enum"],
     "point_read": ["snapshot::reads_enum_quick", "snapshot::reads_enum_thorough"],
     "visibility_filter": ["snapshot::reads_enum_quick"],
